@@ -17,8 +17,8 @@ RULE = ('one evaluation = the key of one valid call under one keymap configurati
 SCOPE = {
     'quick': 'key path: callables with <=2 positional-or-keyword parameters, optional *args, <=1 keyword-only, optional **kw (function, bound '
              'method, callable instance); calls 0..3 positionals x ordered selections of <=2 keywords; 48 keymap configurations (no builtin '
-             'hash), plus arguments that are instances (and the class itself) of a class defined in the session\'s __main__ under 9 serialising keymaps with serializer options (dill/pickle protocol, recurse, typed, composed maps); ignore in {(), every pair of parameter names, ("**",), ("*","**")}; 3 hash seeds.  Sessions: writer and reader processes '
-             'with different hash seeds on dir/file/sqlite archives x 7 keymaps, 9 calls',
+             'hash), plus arguments that are instances (and the class itself) of a class defined in the session\'s __main__ under 9 serialising keymaps with serializer options (dill/pickle protocol, recurse, typed, composed maps) and under hashmap with every algorithm klepto.crypto.algorithms() lists, flat and non-flat; ignore in {(), every pair of parameter names, ("**",), ("*","**")}; 3 hash seeds.  Sessions: writer and reader processes '
+             'with different hash seeds on dir/file/sqlite archives x 10 keymaps (typed ones included), 9 calls, the reader spelling every call with its keywords in the opposite order; the key-path sessions differ in keyword order too',
     'thorough': 'as quick with <=3 positional-or-keyword and <=2 keyword-only parameters, 0..4 positionals and 8 hash seeds',
 }
 ASSUMPTIONS = ['bounded scope, not a proof', 'argument values have process-independent repr/pickle (tokens, ints, strings, bytes, tuples, frozensets of ints)',
@@ -50,7 +50,8 @@ def units(tier, seed):
     step = 6 if mode == 'quick' else 8
     seeds = list(range(1 + seed % 7, 1 + seed % 7 + (8 if mode == 'thorough' else 3)))
     us = [('keys', mode, lo, min(lo + step, n), seeds) for lo in range(0, n, step)]
-    kms = ['keymap', 'stringmap', 'stringmap-nonflat', 'picklemap-dill', 'picklemap-nonflat', 'hashmap-md5', 'hashmap-nonflat']
+    kms = ['keymap', 'stringmap', 'stringmap-nonflat', 'picklemap-dill', 'picklemap-nonflat', 'hashmap-md5', 'hashmap-nonflat',
+           'stringmap-typed', 'hashmap-md5-typed', 'picklemap-nonflat-typed']
     for kind in ('dir', 'file', 'sql'):
         for km in kms:
             if kind == 'sql' and km == 'keymap':
@@ -90,12 +91,12 @@ def run_unit(unit):
         for g, s in bad.items():
             if g.startswith('main/'):
                 _, j, name = g.split('/', 2)
-                out['violations'].append({'clause': 'session_stable', 'klass': 'key of a __main__-class argument depends on the session: %s' % name,
+                out['violations'].append({'clause': 'session_stable', 'klass': 'key depends on the session (serializer options, named algorithms, __main__-class arguments): %s' % name,
                                           'message': 'group %s: keys differ between the session with PYTHONHASHSEED=%d and the one with %d' % (g, seeds[0], s),
                                           'witness': {'kind': 'keys-main', 'j': int(j), 'seeds': [seeds[0], s]}})
                 continue
             idx, ci, j, si = [int(x) for x in g.split('/')]
-            klass = 'key depends on the hash seed: %s %s%s%s' % (cfgs[j][0], 'flat' if cfgs[j][1] else 'non-flat', ' typed' if cfgs[j][2] else '',
+            klass = 'key differs between sessions (hash seed, keyword order, history): %s %s%s%s' % (cfgs[j][0], 'flat' if cfgs[j][1] else 'non-flat', ' typed' if cfgs[j][2] else '',
                                                                  '' if si == 0 else ' with ignore')
             if klass in seenk:
                 continue
